@@ -21,6 +21,7 @@ from fractions import Fraction as F
 
 from ..loader import AnalysisError
 from ..pe import PE, PyRaise, Tensor, Obj, Func, Mock, NArr, NpFloat, Unsupported
+from ..pe import FloatTag
 from .. import quant, qref, prims
 from ..qir import Fwd, equal_mod_finite
 from ..nf import NF, show
@@ -363,6 +364,40 @@ NUMPY_SCALAR_ALTS = {
 }
 
 
+_NOCONST = object()
+SIBLING_DEFAULTS = {}
+
+
+def _const_default(dexpr):
+  import ast as _ast
+  if dexpr is None:
+    return _NOCONST
+  try:
+    v = _ast.literal_eval(dexpr)
+  except (ValueError, SyntaxError):
+    return _NOCONST
+  if isinstance(v, bool) or v is None or isinstance(v, str):
+    return v
+  if isinstance(v, float):
+    return FloatTag(F(str(v)))
+  if isinstance(v, int):
+    return v
+  return _NOCONST
+
+
+def collect_sibling_defaults(mod, classes):
+  SIBLING_DEFAULTS.clear()
+  for cls in classes:
+    ci = mod.classes.get(cls)
+    if ci is None:
+      continue
+    for p, dexpr in ci.init_params()[0]:
+      v = _const_default(dexpr)
+      if v is not _NOCONST and isinstance(v, (int, F)) and not isinstance(
+          v, bool):
+        SIBLING_DEFAULTS.setdefault(p, set()).add(F(v))
+
+
 def printer_roundtrip(rep, repo, mod, cls, kw, varied):
   cfg = "%s(%s)" % (cls, show_kw(kw))
   ci = mod.classes[cls]
@@ -580,10 +615,12 @@ def run(rep, repo, tier):
   rule_literals(rep, repo)
   rule_consumers(rep, repo)
   n = 0
+  collect_sibling_defaults(mod, qref.ALL_QUANTIZERS)
   for cls in qref.ALL_QUANTIZERS:
     if cls not in mod.classes:
       raise AnalysisError("anchor-missing class %s" % cls)
     base, alts = ALTS[cls]
+    ci = mod.classes[cls]
     params = [p for p, _ in mod.classes[cls].init_params()[0]]
     base_ok = printer_roundtrip(rep, repo, mod, cls, dict(base), None)
     n += 1
@@ -632,6 +669,23 @@ def run(rep, repo, tier):
       kw2.update(kw)
       printer_roundtrip(rep, repo, mod, cls, kw2, "exponent-notation")
       n += 1
+    # the defaults the SIBLING classes give to an option of the same name
+    # (a printer shared between classes omits "the default" - whose?)
+    for p, dexpr in ci.init_params()[0]:
+      own = _const_default(dexpr)
+      for v in sorted(SIBLING_DEFAULTS.get(p, ()), key=repr):
+        if own is _NOCONST or v == own or isinstance(v, (bool, str)) or \
+            v is None or p in ("bits", "integer"):
+          continue
+        kw = dict(base)
+        kw[p] = FloatTag(v) if isinstance(own, FloatTag) else v
+        pe0 = PE(repo)
+        try:
+          pe0.call(pe0.lookup_global(cls, mod), [], dict(kw))
+        except PyRaise:
+          continue     # not a legal value for this class
+        printer_roundtrip(rep, repo, mod, cls, kw, "sibling-default:" + p)
+        n += 1
     # float-valued options given as numpy scalars (a scale computed from
     # data, e.g. alpha=np.max(np.abs(w))): str() prints them like python
     # floats, repr() does not (NumPy >= 2)
